@@ -16,7 +16,7 @@ THEOREMS = [_P + t for t in (
     "C09_valid_partial")]
 HARNESS = ("hx_ops", {"HX_ENGINE": "c09"})
 DRIVER = "drv_ops"
-CASES = {"quick": 400, "thorough": 12000}
+CASES = {"quick": 300, "thorough": 6000}
 TECHNIQUE = ("Lean 4: ECMAScript string-literal evaluation of the generated module (jsValue), the gql family's reference lexer/parser "
              "written from the June-2018 specification, and a validator for executable documents written from §5 of the specification "
              "(field existence, leaf/composite shape, arguments, input coercion, fragments, variables, FieldsInSetCanMerge); theorems for "
